@@ -79,7 +79,15 @@ type locState struct {
 	rpos     map[int]token.Pos
 }
 
+type blockInfo struct {
+	gid     int
+	fp      map[interface{}]bool
+	enabled map[int]bool // goroutines enabled when this block's goroutine was chosen
+}
+
 type gsched struct {
+	prevBlock *blockInfo
+	curBlock  *blockInfo
 	w       *Worker
 	gs      []*gor
 	cur     *gor
@@ -99,6 +107,7 @@ func newGsched(w *Worker) *gsched {
 	main := &gor{id: 0, resume: make(chan struct{}, 1), vc: vclock{1}, name: "main"}
 	s.gs = []*gor{main}
 	s.cur = main
+	s.curBlock = &blockInfo{gid: 0, fp: map[interface{}]bool{}, enabled: map[int]bool{0: true}}
 	return s
 }
 
@@ -126,6 +135,50 @@ func (s *gsched) runnable() []*gor {
 		}
 	}
 	return r
+}
+
+func (s *gsched) touch(obj interface{}) {
+	if s.curBlock != nil {
+		s.curBlock.fp[obj] = true
+	}
+}
+
+// finishBlock closes the block that just ran and prunes schedules that are a
+// non-canonical linearisation of the same partial order: if the previous
+// block (other goroutine, higher id) is independent of this one and this
+// goroutine was already enabled when the previous one was chosen, the
+// swapped order is explored elsewhere.
+func (s *gsched) finishBlock() {
+	b := s.curBlock
+	p := s.prevBlock
+	if p != nil && p.gid != b.gid && b.gid < p.gid && p.enabled[b.gid] {
+		disjoint := true
+		for o := range b.fp {
+			if p.fp[o] {
+				disjoint = false
+				break
+			}
+		}
+		if disjoint {
+			s.w.res.Redundant++
+			s.fatal(pathEnd{kind: "redundant"})
+		}
+	}
+	s.prevBlock = b
+}
+
+// choose picks the goroutine that runs the next block.
+func (s *gsched) choose(cands []*gor, kind string) *gor {
+	k := 0
+	if len(cands) > 1 {
+		k = s.w.decide(make([]T, len(cands)), false, "sched:"+kind)
+	}
+	en := map[int]bool{}
+	for _, c := range cands {
+		en[c.id] = true
+	}
+	s.curBlock = &blockInfo{gid: cands[k].id, fp: map[interface{}]bool{}, enabled: en}
+	return cands[k]
 }
 
 // switchTo hands the baton to next and waits until it comes back.
@@ -163,15 +216,12 @@ func (s *gsched) yield(kind string) {
 	if !s.active {
 		return
 	}
+	s.finishBlock()
 	cands := s.runnable()
 	if len(cands) == 0 {
 		s.deadlock()
 	}
-	k := 0
-	if len(cands) > 1 {
-		k = s.w.decide(make([]T, len(cands)), false, "sched:"+kind)
-	}
-	next := cands[k]
+	next := s.choose(cands, kind)
 	if next.state == gBlocked {
 		next.state = gRunnable
 	}
@@ -183,15 +233,12 @@ func (s *gsched) block(ready func() bool, kind string) {
 	g := s.cur
 	g.state = gBlocked
 	g.ready = ready
+	s.finishBlock()
 	cands := s.runnable()
 	if len(cands) == 0 {
 		s.deadlock()
 	}
-	k := 0
-	if len(cands) > 1 {
-		k = s.w.decide(make([]T, len(cands)), false, "sched:block:"+kind)
-	}
-	next := cands[k]
+	next := s.choose(cands, "block:"+kind)
 	next.state = gRunnable
 	if next == g {
 		return
@@ -222,6 +269,7 @@ func (s *gsched) spawn(w *Worker, fr *frame, instr *ssa.Go, fn value, args []val
 	g.vc[g.id] = 1
 	parent.vc[parent.id]++
 	s.gs = append(s.gs, g)
+	s.touch(g)
 	s.exits.Add(1)
 	go func() {
 		defer s.exits.Done()
@@ -253,20 +301,18 @@ func (s *gsched) spawn(w *Worker, fr *frame, instr *ssa.Go, fn value, args []val
 				s.gs[0].resume <- struct{}{}
 			}
 		}()
+		s.touch(g)
 		w.call(nil, instr.Pos(), fn, args)
 		// goroutine finished
 		g.state = gDone
+		s.finishBlock()
 		cands := s.runnable()
 		if len(cands) == 0 {
 			// everything else is blocked (main included): deadlock
 			s.deadlockFromExit()
 			return
 		}
-		k := 0
-		if len(cands) > 1 {
-			k = w.decide(make([]T, len(cands)), false, "sched:exit")
-		}
-		next := cands[k]
+		next := s.choose(cands, "exit")
 		if next.state == gBlocked {
 			next.state = gRunnable
 		}
@@ -311,6 +357,7 @@ func (s *gsched) send(w *Worker, c *channel, v value) {
 		s.block(func() bool { return false }, "send-nil")
 	}
 	s.yield("send")
+	s.touch(c)
 	for {
 		if c.closed {
 			w.throwRuntime("send on closed channel")
@@ -337,6 +384,7 @@ func (s *gsched) recv(w *Worker, c *channel, commaOk bool, t types.Type) value {
 		s.block(func() bool { return false }, "recv-nil")
 	}
 	s.yield("recv")
+	s.touch(c)
 	elemT := t
 	if commaOk {
 		elemT = t.(*types.Tuple).At(0).Type()
@@ -378,7 +426,9 @@ func (s *gsched) closeChan(w *Worker, c *channel) {
 	if c == nil {
 		w.throwRuntime("close of nil channel")
 	}
-	s.yield("close")
+	// no scheduling point: close is ordered with the closing goroutine's
+	// neighbouring send/receive points (sync-block granularity, see DESIGN)
+	s.touch(c)
 	if c.closed {
 		w.throwRuntime("close of closed channel")
 	}
@@ -389,7 +439,9 @@ func (s *gsched) closeChan(w *Worker, c *channel) {
 }
 
 func (s *gsched) selectStmt(w *Worker, fr *frame, instr *ssa.Select) value {
-	s.yield("select")
+	if instr.Blocking {
+		s.yield("select")
+	}
 	type st struct {
 		c    *channel
 		send value
@@ -403,6 +455,9 @@ func (s *gsched) selectStmt(w *Worker, fr *frame, instr *ssa.Select) value {
 			sv = fr.get(state.Send)
 		}
 		states = append(states, st{c: c, send: sv, dir: state.Dir})
+		if c != nil {
+			s.touch(c)
+		}
 	}
 	readyIdx := func() []int {
 		var r []int
@@ -481,6 +536,7 @@ func (s *gsched) wgAdd(w *Worker, p *value, d int) {
 		st = &wgState{}
 		s.wgs[p] = st
 	}
+	s.touch(p)
 	st.n += d
 	if st.n < 0 {
 		w.throwRuntime("sync: negative WaitGroup counter")
@@ -498,6 +554,7 @@ func (s *gsched) wgWait(w *Worker, p *value) {
 		return
 	}
 	s.yield("wg.Wait")
+	s.touch(p)
 	for st.n > 0 {
 		s.block(func() bool { return st.n == 0 }, "wg.Wait")
 	}
